@@ -226,7 +226,7 @@ theorem inv_late_pop {cs : List Chunk} {v : Variant} {c : Cfg} {x : Item} {rest 
   have hge : rank x ≤ hr rest := hs.hr_rest_ge
   refine inv_late hs.tail (by simp only; omega) h.wtemp (quiet_pop (c := c) h hp hnq) (closed_pop (c := c) h hp hnm)
     (synced_pop (c := c) h hp hnf) h.safe h.handTerm ?_ (tempSome_pop (c := c) h hp hx16) (termLate_pop (c := c) h hp hnm)
-    (fun h25 => absurd h25 (renamed_pop (c := c) h hp hx24 hnr))
+    (fun h25 => absurd h25 (renamed_pop (c := c) h hp hx24 hnr)) (h.side.congr rfl rfl rfl rfl)
   intro hh _ h25
   exact hmain hh h25
 
@@ -236,21 +236,21 @@ theorem main_of_inv {cs : List Chunk} {v : Variant} {c : Cfg} {x : Item} {rest :
 
 /-- `join` / `poll` / `waitAll` / `checkTemp` letting the saver pass -/
 theorem inv_pass {cs : List Chunk} {v : Variant} {c : Cfg} {x : Item} {rest : List Item} (h : Inv cs v c)
-    (hp : c.prog = x :: rest) (hx : x = .join ∨ x = .poll ∨ x = .waitAll ∨ x = .checkTemp)
+    (hp : c.prog = x :: rest) (hx : x = .join ∨ x = .poll ∨ x = .waitAll ∨ x = .checkTemp ∨ x = .markUnreg)
     (hj : x = .join → lastSt c.workers ≠ some .running ∧ lastSt c.workers ≠ some .failed)
     (hw : x = .waitAll → anyRunning c.workers = false ∧ anyFailed c.workers = false) :
     Inv cs v { c with prog := rest } := by
   have hs : Shape (x :: rest) := hp ▸ h.shape
-  have hx16 : 16 ≤ rank x := by rcases hx with rfl | rfl | rfl | rfl <;> simp [rank]
+  have hx16 : 16 ≤ rank x := by rcases hx with rfl | rfl | rfl | rfl | rfl <;> simp [rank]
   refine inv_late_pop h hp hx16 ?_ ?_ ?_ ?_ ?_ ?_
-  · rcases hx with rfl | rfl | rfl | rfl <;> simp
-  · rcases hx with rfl | rfl | rfl | rfl <;> simp
-  · rcases hx with rfl | rfl | rfl | rfl <;> simp
-  · rcases hx with rfl | rfl | rfl | rfl <;> simp [rank]
-  · rcases hx with rfl | rfl | rfl | rfl <;> simp
+  · rcases hx with rfl | rfl | rfl | rfl | rfl <;> simp
+  · rcases hx with rfl | rfl | rfl | rfl | rfl <;> simp
+  · rcases hx with rfl | rfl | rfl | rfl | rfl <;> simp
+  · rcases hx with rfl | rfl | rfl | rfl | rfl <;> simp [rank]
+  · rcases hx with rfl | rfl | rfl | rfl | rfl <;> simp
   · intro hh _
     refine main_pop (main_of_inv h hp hx16 hh) hp hs.hr_rest_ge ?_ ?_ ?_ ?_ hj hw
-    all_goals (rcases hx with rfl | rfl | rfl | rfl <;> simp)
+    all_goals (rcases hx with rfl | rfl | rfl | rfl | rfl <;> simp)
 
 
 /-! ## items that change the metadata in memory or the flags -/
@@ -267,7 +267,7 @@ theorem inv_append {cs : List Chunk} {v : Variant} {c : Cfg} {ci : ChunkInfo} {r
     simpa [rank] using this
   refine inv_late hs.tail (by simp only; omega) h.wtemp ?_ ?_ ?_ h.safe h.handTerm ?_
     (tempSome_pop (c := c) h hp (by simp [rank])) (by intro h19 _; simp only at h19; omega)
-    (by intro h25; simp only at h25; omega)
+    (by intro h25; simp only at h25; omega) (h.side.congr rfl rfl rfl rfl)
   · intro h18 _; simp only at h18; omega
   · intro h19 _; simp only at h19; omega
   · intro h23 _; simp only at h23; omega
@@ -299,7 +299,7 @@ theorem inv_markClosed {cs : List Chunk} {v : Variant} {c : Cfg} {rest : List It
     have := hs.no_cross mem_milestones_fwLast (by simp [rank]) (by simp)
     simpa [rank] using this
   refine inv_late hs.tail (by simp only; omega) h.wtemp (quiet_pop (c := c) h hp (by simp)) ?_ ?_ h.safe ?_ ?_
-    (tempSome_pop (c := c) h hp (by simp [rank])) (by intro _ _; rfl) (by intro h25; simp only at h25; omega)
+    (tempSome_pop (c := c) h hp (by simp [rank])) (by intro _ _; rfl) (by intro h25; simp only at h25; omega) (h.side.congr rfl rfl rfl rfl)
   · intro _ _; exact ⟨rfl, rfl⟩
   · intro h23 _; simp only at h23; omega
   · intro _; rfl
@@ -324,7 +324,7 @@ theorem inv_waitQuiet {cs : List Chunk} {v : Variant} {c : Cfg} {rest : List Ite
     simpa [rank] using this
   refine inv_late hs.tail (by simp only; omega) h.wtemp ?_ ?_ ?_ h.safe h.handTerm ?_
     (tempSome_pop (c := c) h hp (by simp [rank])) (by intro h19 _; simp only at h19; omega)
-    (by intro h25; simp only at h25; omega)
+    (by intro h25; simp only at h25; omega) (h.side.congr rfl rfl rfl rfl)
   · intro _ _; exact anyRunning_false hq
   · intro h19 _; simp only at h19; omega
   · intro h23 _; simp only at h23; omega
@@ -338,7 +338,7 @@ theorem inv_finish {cs : List Chunk} {v : Variant} {c : Cfg} {rest : List Item} 
   have hs : Shape (.finish :: rest) := hp ▸ h.shape
   have hgt : 25 < hr rest := by have := hs.hr_rest_gt (by simp [rank]) (by simp [rank]); simpa [rank] using this
   refine inv_late hs.tail (by simp only; omega) h.wtemp ?_ ?_ ?_ h.safe h.handTerm ?_
-    (by intro h24; simp only at h24; omega) (by intro _ h25; simp only at h25; omega) (by intro h25; simp only at h25; omega)
+    (by intro h24; simp only at h24; omega) (by intro _ h25; simp only at h25; omega) (by intro h25; simp only at h25; omega) (h.side.congr rfl rfl rfl rfl)
   · intro _ h25; simp only at h25; omega
   · intro _ h25; simp only at h25; omega
   · intro _ h24; simp only at h24; omega
@@ -372,12 +372,13 @@ theorem inv_submit {cs : List Chunk} {v : Variant} {c : Cfg} {i : Nat} {ops : Li
   have hle : hr rest ≤ 17 := by
     have := hs.no_cross mem_milestones_waitQuiet (by simp [rank]) (by simp)
     simpa [rank] using this
-  have hok : ∀ o ∈ ops, tempOp o = true := by
+  have hok2 : (∀ o ∈ ops, tempOp o = true) ∧ ∀ o ∈ ops, mdFree o = true := by
     have := h.shape.ok (.submit i ops) (by rw [hp]; simp)
     simpa [okItem] using this
+  obtain ⟨hok, hokmd⟩ := hok2
   refine inv_late hs.tail (by simp only; omega) ?_ ?_ ?_ ?_ h.safe h.handTerm ?_
     (tempSome_pop (c := c) h hp (by simp [rank])) (by intro h19 _; simp only at h19; omega)
-    (by intro h25; simp only at h25; omega)
+    (by intro h25; simp only at h25; omega) ?_
   · intro w hw o ho
     rcases List.mem_append.mp hw with hw | hw
     · exact h.wtemp w hw o ho
@@ -462,6 +463,11 @@ theorem inv_submit {cs : List Chunk} {v : Variant} {c : Cfg} {i : Nat} {ops : Li
         · right; exact ⟨i', by rw [hp]; simp [hi']⟩
       obtain ⟨h20, _⟩ := m.lateItems hl'
       rw [hp] at h20; simp [rank] at h20
+  · refine ⟨h.side.nf, ?_, h.side.orphOk, h.side.orphMode⟩
+    intro w hw o ho
+    rcases List.mem_append.mp hw with hw | hw
+    · exact h.side.wmd w hw o ho
+    · simp at hw; subst hw; exact hokmd o ho
 
 
 /-! ## items that touch the file system -/
@@ -570,7 +576,7 @@ theorem inv_flush {cs : List Chunk} {v : Variant} {c : Cfg} {x : Item} {rest : L
       ?_ ?_ h.handTerm ?_ (by intro _; simp [ht']) (termLate_pop (c := c) h hp hnm)
       (fun h25 => absurd h25 (renamed_pop (c := c) h hp
         (by rcases hxo with ⟨p, rfl, _⟩ | ⟨p, rfl, _⟩ | ⟨p, rfl, _⟩ <;> cases p <;> simp [rank])
-        (by rcases hxo with ⟨_, rfl, _⟩ | ⟨_, rfl, _⟩ | ⟨_, rfl, _⟩ <;> simp)))
+        (by rcases hxo with ⟨_, rfl, _⟩ | ⟨_, rfl, _⟩ | ⟨_, rfl, _⟩ <;> simp))) (h.side.congr rfl rfl rfl rfl)
     · -- the metadata file equals the metadata in memory from the final write on
       intro h23 h24
       simp only at h23 h24
@@ -769,7 +775,7 @@ theorem inv_rename {cs : List Chunk} {v : Variant} {c : Cfg} {rest : List Item} 
     obtain ⟨hend, hexc⟩ := h.closedMd (by omega) (by omega)
     refine inv_late hs.tail (by simp only; omega) h.wtemp ?_ ?_ ?_ ?_ h.handTerm ?_
       (by intro h24; simp only at h24; omega) (by intro _ _; exact h.termLate (by omega) (by omega))
-      (by intro _; exact ⟨t, hfin, hmd⟩)
+      (by intro _; exact ⟨t, hfin, hmd⟩) (h.side.congr rfl rfl rfl rfl)
     · intro _ h25; exact h.quiet (by omega) (by omega)
     · intro _ _; exact ⟨hend, hexc⟩
     · intro _ h24; simp only at h24; omega
@@ -820,7 +826,7 @@ theorem inv_unlink {cs : List Chunk} {v : Variant} {c : Cfg} {i : Nat} {rest : L
     obtain ⟨hfin, t, ht, ht'⟩ := apply_unlinkTemp ha
     refine inv_late hs.tail (by simp only; omega) h.wtemp ?_ ?_ ?_ ?_ h.handTerm ?_
       (by intro _; simp [ht']) (by intro _ _; exact h.termLate (by omega) (by omega))
-      (by intro h25; simp only at h25; omega)
+      (by intro h25; simp only at h25; omega) (h.side.congr rfl rfl rfl rfl)
     · intro _ _; exact h.quiet (by omega) (by omega)
     · intro _ _; exact h.closedMd (by omega) (by omega)
     · intro h23 _; simp only at h23; omega
@@ -1080,7 +1086,7 @@ theorem inv_readInfo {cs : List Chunk} {v : Variant} {c : Cfg} {i : Nat} {rest :
     simpa [rank] using this
   refine inv_late hs.tail (by simp only; omega) h.wtemp ?_ ?_ ?_ h.safe h.handTerm ?_
     (tempSome_pop (c := c) h hp (by simp [rank])) (by intro _ _; exact h.termLate (by omega) (by omega))
-    (by intro h25; simp only at h25; omega)
+    (by intro h25; simp only at h25; omega) (h.side.congr rfl rfl rfl rfl)
   · intro _ _; exact h.quiet (by omega) (by omega)
   · intro _ _; exact h.closedMd (by omega) (by omega)
   · intro h23 _; simp only at h23; omega
@@ -1201,7 +1207,7 @@ theorem inv_collect {cs : List Chunk} {v : Variant} {c : Cfg} {rest : List Item}
   have hle : hr (collectItems (collectList t) ++ rest) ≤ 22 := by
     have := hs'.sorted.hr_le_mem (.flushWrite .last) (by simp [hfw])
     simpa [rank] using this
-  refine inv_late hs' (by simp only; omega) h.wtemp ?_ ?_ ?_ h.safe h.handTerm ?_ ?_ ?_ (by intro h25; simp only at h25; omega)
+  refine inv_late hs' (by simp only; omega) h.wtemp ?_ ?_ ?_ h.safe h.handTerm ?_ ?_ ?_ (by intro h25; simp only at h25; omega) (h.side.congr rfl rfl rfl rfl)
   · intro _ _; exact h.quiet (by omega) (by omega)
   · intro _ _; exact h.closedMd (by omega) (by omega)
   · intro h23 _; simp only at h23; omega
@@ -1319,14 +1325,6 @@ theorem inv_collect {cs : List Chunk} {v : Variant} {c : Cfg} {rest : List Item}
 
 /-! ## steps of the chunk writers -/
 
-
-/-- names an operation may change -/
-def opNames : Op → List Name
-  | .openTrunc _ n => [n]
-  | .write _ n _ => [n]
-  | .rename _ a b => [a, b]
-  | .unlink _ n => [n]
-  | _ => []
 
 /-- effect of an operation on the temp directory -/
 theorem apply_tempOp {fs fs' : FS} {o : Op} (ho : tempOp o = true) (h : apply fs o = .ok fs') :
@@ -1684,7 +1682,7 @@ theorem inv_wrk_ok {cs : List Chunk} {v : Variant} {c : Cfg} {k : Nat} {w : Work
   have hto : tempOp o = true := h.wtemp w hwm o (by rw [hops]; simp)
   obtain ⟨hfin, t, t', ht, ht', hag, _, hwr, hrn⟩ := apply_tempOp hto ha
   refine inv_late h.shape (by simp only; omega) ?_ ?_ ?_ ?_ ?_ h.handTerm ?_ (by intro _; simp [ht']) h.termLate
-    (by intro h25; simp only at h25; omega)
+    (by intro h25; simp only at h25; omega) ?_
   · intro a ham o' ho'
     rcases mem_set_cases ham with rfl | ⟨p, _, hp⟩
     · exact h.wtemp w hwm o' (by rw [hops]; simp at ho' ⊢; exact Or.inr ho')
@@ -1730,6 +1728,11 @@ theorem inv_wrk_ok {cs : List Chunk} {v : Variant} {c : Cfg} {k : Nat} {w : Work
         apply hag
         intro hx
         rcases hnames.2 hv _ hx with h | h <;> cases h
+  · refine ⟨h.side.nf, ?_, h.side.orphOk, h.side.orphMode⟩
+    intro a ham o' ho'
+    rcases mem_set_cases ham with rfl | ⟨p, _, hp⟩
+    · exact h.side.wmd w hwm o' (by rw [hops]; simp at ho' ⊢; exact Or.inr ho')
+    · exact h.side.wmd a (List.mem_of_getElem? hp) o' ho'
 
 /-- a chunk writer's operation raises -/
 theorem inv_wrk_fail {cs : List Chunk} {v : Variant} {c : Cfg} {k : Nat} {w : Worker} (h : Inv cs v c)
@@ -1738,7 +1741,7 @@ theorem inv_wrk_fail {cs : List Chunk} {v : Variant} {c : Cfg} {k : Nat} {w : Wo
   have hwm : w ∈ c.workers := List.mem_of_getElem? hk
   obtain ⟨h16, hlow⟩ := hr_of_running h hwm hrun
   refine inv_late h.shape (by simp only; omega) ?_ ?_ h.closedMd ?_ h.safe h.handTerm ?_ (by intro h24; exact h.tempSome (by simp only at h24 ⊢; omega) (by simpa using h24)) h.termLate
-    (by intro h25; simp only at h25; omega)
+    (by intro h25; simp only at h25; omega) ?_
   · intro a ham o' ho'
     rcases mem_set_cases ham with rfl | ⟨p, _, hp⟩
     · simp at ho'
@@ -1756,5 +1759,87 @@ theorem inv_wrk_fail {cs : List Chunk} {v : Variant} {c : Cfg} {k : Nat} {w : Wo
         (awaited_congr (c2 := { c with workers := c.workers.set k { w with ops := [], st := .failed } }) rfl rfl this.awaited),
       this.reads, this.names, this.mdOpen, this.sj, this.noApp, this.noRead, this.nocmeta, this.unl, this.collectOnce,
       this.lateItems⟩
+  · refine ⟨h.side.nf, ?_, h.side.orphOk, h.side.orphMode⟩
+    intro a ham o' ho'
+    rcases mem_set_cases ham with rfl | ⟨p, _, hp⟩
+    · simp at ho'
+    · exact h.side.wmd a (List.mem_of_getElem? hp) o' ho'
+
+/-! ## registration of the newest write; writes nobody waits for -/
+
+
+theorem main_unreg {cs : List Chunk} {v : Variant} {c : Cfg} (m : Main cs v c) (b : Bool) : Main cs v { c with unreg := b } :=
+  ⟨m.chunksMd, m.cover, m.nodup, m.substd, m.wstd, awaited_congr (c1 := c) rfl rfl m.awaited, m.reads, m.names, m.mdOpen,
+    m.sj, m.noApp, m.noRead, m.nocmeta, m.unl, m.collectOnce, m.lateItems⟩
+
+/-- whether the newest chunk write has reached `pending` is of no concern to the invariant -/
+theorem inv_unreg {cs : List Chunk} {v : Variant} {c : Cfg} (h : Inv cs v c) (b : Bool) : Inv cs v { c with unreg := b } := by
+  constructor
+  · exact h.shape
+  · exact h.wtemp
+  · exact h.nowork
+  · exact h.initFlags
+  · exact h.initProg
+  · exact h.initTemp
+  · exact h.quiet
+  · exact h.closedMd
+  · exact h.synced
+  · exact h.safe
+  · exact h.handTerm
+  · intro hh h16 h25; exact main_unreg (h.main hh h16 h25) b
+  · exact h.tempSome
+  · exact h.termLate
+  · exact h.renamed
+  · exact h.side.congr rfl rfl rfl rfl
+
+/-- a chunk write nobody waits for performs its next operation, or fails: it only touches data entries of the temp
+directory, and the saver is inside the handler (or through) -/
+theorem inv_orph {cs : List Chunk} {v : Variant} {c c' : Cfg} {k : Nat} {inject : Bool} (h : Inv cs v c)
+    (hs : stepOrph c k inject = some c') : Inv cs v c' := by
+  unfold stepOrph at hs
+  split at hs
+  · rename_i w hk
+    have hwm : w ∈ c.orphans := List.mem_of_getElem? hk
+    have hhand : c.handling = true := h.side.orphMode (by intro e; rw [e] at hwm; simp at hwm)
+    have hnh : ¬ c.handling = false := by rw [hhand]; simp
+    split at hs
+    · rename_i o rest hst hops
+      have hside : ∀ (w' : Worker) (hsub : ∀ o' ∈ w'.ops, o' ∈ w.ops) (fs' : FS),
+          Side v { c with fs := fs', orphans := c.orphans.set k w' } := by
+        intro w' hsub fs'
+        refine ⟨h.side.nf, h.side.wmd, ?_, fun _ => hhand⟩
+        intro a ham o' ho'
+        rcases mem_set_cases ham with rfl | ⟨p, _, hp⟩
+        · exact h.side.orphOk w hwm o' (hsub o' ho')
+        · exact h.side.orphOk a (List.mem_of_getElem? hp) o' ho'
+      have hfail : Inv cs v { c with orphans := c.orphans.set k { w with ops := [], st := .failed } } := by
+        have hsd := hside { w with ops := [], st := .failed } (by intro o' ho'; simp at ho') c.fs
+        exact ⟨h.shape, h.wtemp, h.nowork, h.initFlags, h.initProg, h.initTemp, h.quiet, h.closedMd, h.synced, h.safe,
+          h.handTerm, fun hh => absurd hh hnh, h.tempSome, h.termLate, h.renamed, hsd⟩
+      split at hs
+      · injection hs with hs; subst hs; exact hfail
+      · split at hs
+        · rename_i fs' ha
+          injection hs with hs; subst hs
+          obtain ⟨hto, hmf⟩ := h.side.orphOk w hwm o (by rw [hops]; simp)
+          obtain ⟨hfin, t, t', ht, ht', hag, _, _, _⟩ := apply_tempOp hto ha
+          have hmd : t'.get .md = t.get .md := hag _ (by simpa [mdFree] using hmf)
+          have hsd := hside { w with ops := rest, st := if rest.isEmpty then .ok else .running }
+            (by intro o' ho'; rw [hops]; simp at ho' ⊢; exact Or.inr ho') fs'
+          refine ⟨h.shape, h.wtemp, h.nowork, h.initFlags, h.initProg, ?_, h.quiet, h.closedMd, ?_, ?_, h.handTerm,
+            fun hh => absurd hh hnh, fun _ _ => by simp [ht'], h.termLate, ?_, hsd⟩
+          · intro h12 h15
+            exact absurd (h.initFlags (by simpa using h15)).2.1 hnh
+          · intro h23 h24
+            obtain ⟨t0, ht0, hm0⟩ := h.synced h23 h24
+            rw [ht] at ht0; injection ht0 with ht0; subst ht0
+            exact ⟨t', ht', by rw [hmd]; exact hm0⟩
+          · intro d hd; exact h.safe d (by simpa [hfin] using hd)
+          · intro h25
+            obtain ⟨d, hd, hmd'⟩ := h.renamed h25
+            exact ⟨d, by simpa [hfin] using hd, hmd'⟩
+        · injection hs with hs; subst hs; exact hfail
+    · simp at hs
+  · simp at hs
 
 end Strax.FS
